@@ -107,16 +107,28 @@ func StartCfg(cfg *config.Config) (*PD, error) {
 // Start starts one server and waits until it is leader. If sched is non-nil (or wrap is true) the server's
 // storage kv.Base is wrapped by a faultkv.KV.
 func Start(sched *gate.Sched, wrap bool) (*PD, error) {
-	cfg, err := NewConfig("pd")
-	if err != nil {
-		return nil, err
+	var p *PD
+	var err error
+	// the ports are picked before the server binds them: on a busy machine another process may take one in between
+	// (embedded etcd then gives up with "etcd start canceled"); try again with fresh ports
+	for attempt := 0; attempt < 5; attempt++ {
+		var cfg *config.Config
+		if cfg, err = NewConfig("pd"); err != nil {
+			return nil, err
+		}
+		if p, err = StartCfg(cfg); err != nil {
+			os.RemoveAll(cfg.DataDir)
+			time.Sleep(200 * time.Millisecond)
+			continue
+		}
+		if err = p.WaitLeader(20 * time.Second); err != nil {
+			p.Close()
+			p = nil
+			continue
+		}
+		break
 	}
-	p, err := StartCfg(cfg)
 	if err != nil {
-		return nil, err
-	}
-	if err := p.WaitLeader(20 * time.Second); err != nil {
-		p.Close()
 		return nil, err
 	}
 	if wrap || sched != nil {
